@@ -695,6 +695,9 @@ fn all_seqs(n: u64, len: usize, f: &mut dyn FnMut(&[u64])) {
 
 use minidump_unwind::{MultiSymbolProvider, SymbolProvider, SymbolStats};
 
+/// the component value that is spelled as the empty string / the nil debug id
+const EMPTY: u64 = 999;
+
 #[derive(Clone, Debug, PartialEq, Eq, PartialOrd, Ord)]
 enum Cf {
     Absent,
@@ -774,11 +777,17 @@ impl ModSpec {
                 Cf::Empty => Some(String::new()),
                 Cf::Path(..) => Some(self.code_file_str()),
             },
-            code_identifier: self.ci.map(|n| debugid::CodeId::new(format!("C0DE{n:04X}"))),
-            debug_file: self.df.map(|n| format!("m{n}.dbg")),
-            debug_id: self
-                .di
-                .map(|n| debugid::DebugId::from_str(&format!("abcd1234-abcd-1234-abcd-abcd{:08x}-a", n)).unwrap()),
+            // the value 999 stands for the EMPTY spelling of a component (present, but "" / the nil id): a
+            // module with an empty component is not the module without it
+            code_identifier: self.ci.map(|n| debugid::CodeId::new(if n == EMPTY { String::new() } else { format!("C0DE{n:04X}") })),
+            debug_file: self.df.map(|n| if n == EMPTY { String::new() } else { format!("m{n}.dbg") }),
+            debug_id: self.di.map(|n| {
+                if n == EMPTY {
+                    debugid::DebugId::nil()
+                } else {
+                    debugid::DebugId::from_str(&format!("abcd1234-abcd-1234-abcd-abcd{:08x}-a", n)).unwrap()
+                }
+            }),
             version,
         }
     }
@@ -1084,7 +1093,8 @@ async fn suspend(cx: &RCtx, n: u32) {
 impl SymbolSupplier for RMock {
     async fn locate_symbols(&self, module: &(dyn Module + Sync)) -> Result<LocateSymbolsResult, SymbolError> {
         let (p, k) = (self.p, self.cx.key_of(module));
-        let (delay, res) = self.cx.c.sym[&(p, k)];
+        // (a module no fill/walk request names has no table entry: the oracle reports the call)
+        let (delay, res) = self.cx.c.sym.get(&(p, k)).copied().unwrap_or((0, SRes::Nf));
         let inst = {
             let mut sh = self.cx.sh.lock().unwrap();
             sh.events.push(REv::Call(p, k));
@@ -1112,7 +1122,7 @@ impl SymbolSupplier for RMock {
 
     async fn locate_file(&self, module: &(dyn Module + Sync), file_kind: FileKind) -> Result<PathBuf, FileError> {
         let (p, k, fk) = (self.p, self.cx.key_of(module), kind_ix(file_kind));
-        let (delay, ok) = self.cx.c.file[&(p, k, fk)];
+        let (delay, ok) = self.cx.c.file.get(&(p, k, fk)).copied().unwrap_or((0, false));
         let inst = {
             let mut sh = self.cx.sh.lock().unwrap();
             sh.events.push(REv::FCall(p, k, fk));
@@ -1454,6 +1464,7 @@ fn rrun_scheduled(c: &RCase) -> RRunOut {
         stats: vec![],
     };
     let mut seen_events = 0usize;
+    let mut last_stats: Vec<String> = vec![String::new(); w.syms.len()];
     let mut poll_one = |t: usize, futs: &mut Vec<Option<Pin<Box<dyn Future<Output = ()>>>>>, out: &mut RRunOut| -> String {
         if t < n {
             if let Some(f) = futs[t].as_mut() {
@@ -1471,8 +1482,17 @@ fn rrun_scheduled(c: &RCase) -> RRunOut {
             out.blocked_polls += 1;
         }
         out.counters.push(counters_now(&w, &shg));
+        // the statistics map of every provider whose map changed during this poll
+        let mut stats_delta = String::new();
+        for (p, sy) in w.syms.iter().enumerate() {
+            let now = stats_str(&sy.stats());
+            if now != last_stats[p] {
+                stats_delta.push_str(&format!("S{p}:{now}"));
+                last_stats[p] = now;
+            }
+        }
         let s = format!(
-            "{t}[{}|{}]{}w{}f{}",
+            "{t}[{}|{}]{}{stats_delta}w{}f{}",
             evs.iter().filter_map(rev_str).collect::<Vec<_>>().join(","),
             evs.iter()
                 .filter_map(|e| match e {
@@ -1596,6 +1616,13 @@ fn roracle(c: &RCase, r: &RRunOut) -> Vec<(String, String)> {
             o.push(("supplier-called-twice".into(), format!("locate_symbols of provider {p} called {n} times for module {} ({})", k, c.mods[*k].show())));
         }
     }
+    //     and only for modules somebody asked symbols for (get_file_path does not need them)
+    for (p, k) in r.calls.keys() {
+        if !c.sym.contains_key(&(*p, *k)) {
+            o.push(("supplier-asked-unasked".into(), format!("locate_symbols of provider {p} called for module {k} ({}) although no fill_symbol/walk_frame request names it", c.mods[*k].show())));
+        }
+    }
+    let sym_class = |p: usize, k: usize| c.sym.get(&(p, k)).map(|v| v.1.class()).unwrap_or(Res::Nf);
     // (2) every requester of a module observes the same outcome (incl. a remembered failure): the one
     //     that provider's supplier gave, served from its one call
     let mut per_key: BTreeMap<(usize, usize), Vec<(usize, Res, Option<String>)>> = BTreeMap::new();
@@ -1603,7 +1630,7 @@ fn roracle(c: &RCase, r: &RRunOut) -> Vec<(String, String)> {
         match e {
             REv::Seen { t, p, k, fk: None, res, inst, .. } => per_key.entry((*p, *k)).or_default().push((*t, *res, inst.clone())),
             REv::Seen { t, p, k, fk: Some(fk), res, .. } => {
-                let want = if c.file[&(*p, *k, *fk)].1 { Res::Ok } else { Res::Nf };
+                let want = if c.file.get(&(*p, *k, *fk)).map(|v| v.1).unwrap_or(false) { Res::Ok } else { Res::Nf };
                 if *res != want {
                     o.push(("wrong-outcome".into(), format!("locate_file({k},{fk}) of provider {p} answered {} but task {t} observed {}", want.s(), res.s())));
                 }
@@ -1623,7 +1650,7 @@ fn roracle(c: &RCase, r: &RRunOut) -> Vec<(String, String)> {
                 o.push(("outcomes-disagree".into(), format!("provider {p}, module {k}: requesters were served from supplier calls {insts:?}")));
             }
         }
-        let want = c.sym[&(*p, *k)].1.class();
+        let want = sym_class(*p, *k);
         // (failures of modules that share their code-file leaf name cannot be classified from outside)
         if let Some(bad) = v.iter().find(|x| x.1 != want && !(c.leaf_shared(*k) && want != Res::Ok && x.1 != Res::Ok)) {
             o.push(("wrong-outcome".into(), format!("provider {p}, module {k}: supplier answered {} but task {} observed {}", want.s(), bad.0, bad.1.s())));
@@ -1699,8 +1726,13 @@ fn roracle(c: &RCase, r: &RRunOut) -> Vec<(String, String)> {
             if !ok {
                 o.push(("multi-wrong-combination".into(), format!("request {j} of task {t} ({}): got {out}, the first success in provider order is {want}", show_rq(&q))));
             }
-            if consulted != want_consulted {
-                o.push(("multi-consultation-order".into(), format!("request {j} of task {t} ({}): providers consulted {consulted:?}, expected {want_consulted:?}", show_rq(&q))));
+            // providers are consulted in the order they were added, each at most once per request; a walk
+            // stops at its first success (whether fill_symbol / get_file_path go on after a success is the
+            // code's choice: compared with the model, not demanded here)
+            let in_order = consulted.windows(2).all(|w| w[0] < w[1]);
+            let walk_ok = q.kind != Rk::Walk || consulted == want_consulted;
+            if !in_order || !walk_ok {
+                o.push(("multi-consultation-order".into(), format!("request {j} of task {t} ({}): providers consulted {consulted:?}, expected {}{want_consulted:?}", show_rq(&q), if q.kind == Rk::Walk { "" } else { "an increasing part of " })));
             }
         }
     }
@@ -1711,7 +1743,7 @@ fn roracle(c: &RCase, r: &RRunOut) -> Vec<(String, String)> {
             if *q != p || c.leaf_shared(*k) {
                 continue;
             }
-            let want = c.sym[&(p, *k)].1.class().s();
+            let want = sym_class(p, *k).s();
             let got = st.get(&c.mods[*k].leaf()).map(stat_class).unwrap_or("absent");
             if got != want {
                 o.push(("stats-mismatch".into(), format!("provider {p}: stats[{:?}] says {got} but the remembered outcome of module {k} is {want}", c.mods[*k].leaf())));
@@ -2316,6 +2348,71 @@ fn hexec_case(c: &HCase) -> ImplResult {
     res
 }
 
+fn hshrink(case: &str, still_fails: &dyn Fn(&str) -> bool) -> String {
+    let Some(mut c) = parse_hcase(case) else { return case.to_string() };
+    let try_ = |d: &HCase, c: &mut HCase| -> bool {
+        let line = render_hcase(d);
+        if parse_hcase(&line).is_some() && still_fails(&line) {
+            *c = d.clone();
+            true
+        } else {
+            false
+        }
+    };
+    let mut progress = true;
+    while progress {
+        progress = false;
+        for t in 0..c.progs.len() {
+            let mut i = 0;
+            while i < c.progs[t].len() {
+                let mut d = c.clone();
+                d.progs[t].remove(i);
+                if try_(&d, &mut c) {
+                    progress = true;
+                } else {
+                    i += 1;
+                }
+            }
+        }
+        let mut t = 0;
+        while c.progs.len() > 1 && t < c.progs.len() {
+            if c.progs[t].is_empty() {
+                let mut d = c.clone();
+                d.progs.remove(t);
+                if try_(&d, &mut c) {
+                    progress = true;
+                    continue;
+                }
+            }
+            t += 1;
+        }
+        if c.nurls > 0 {
+            let mut d = c.clone();
+            d.nurls -= 1;
+            if try_(&d, &mut c) {
+                progress = true;
+            }
+        }
+        if c.mode == 'm' {
+            let mut d = c.clone();
+            d.mode = 'j';
+            if try_(&d, &mut c) {
+                progress = true;
+            }
+        }
+    }
+    let used: BTreeSet<(usize, u8)> = c
+        .progs
+        .iter()
+        .flatten()
+        .map(|q| (c.key(q.m), match q.kind { Rk::File(fk) => fk, _ => 3 }))
+        .collect();
+    let mut d = c.clone();
+    d.srv.retain(|k, _| used.contains(k));
+    try_(&d, &mut c);
+    render_hcase(&c)
+}
+
 fn gen_http(tier: Tier, rng: &mut Rng, emit: &mut dyn FnMut(String)) {
     let n = if tier == Tier::Quick { 500 } else { 12_000 };
     for i in 0..n {
@@ -2495,35 +2592,43 @@ fn gen_req(tier: Tier, rng: &mut Rng, emit: &mut dyn FnMut(String)) {
     }
     // ---- (B) module identity: every subset of the four components differing, in every way a component can
     //          differ; the two modules are looked up by two tasks through every request kind
-    let base = ModSpec { cf: Cf::Path(0, 0), ci: Some(0), df: Some(0), di: Some(0) };
+    let bases = [
+        ModSpec { cf: Cf::Path(0, 0), ci: Some(0), df: Some(0), di: Some(0) },
+        // every component present but EMPTY ("" / nil id), and every component missing
+        ModSpec { cf: Cf::Empty, ci: Some(EMPTY), df: Some(EMPTY), di: Some(EMPTY) },
+        ModSpec { cf: Cf::Absent, ci: None, df: None, di: None },
+    ];
     let cf_alts = [Cf::Path(0, 1), Cf::Path(1, 0), Cf::Empty, Cf::Absent];
-    let opt_alts = [Some(1u64), None];
+    let opt_alts = [Some(1u64), None, Some(EMPTY)];
     let mut variants: Vec<(ModSpec, ModSpec)> = vec![];
-    for mask in 0..16u32 {
-        for alt in 0..4usize {
-            let mut b = base.clone();
-            if mask & 1 != 0 {
-                b.cf = cf_alts[alt].clone();
+    for base in &bases {
+        for mask in 0..16u32 {
+            for alt in 0..4usize {
+                let mut b = base.clone();
+                if mask & 1 != 0 {
+                    b.cf = cf_alts[alt].clone();
+                }
+                if mask & 2 != 0 {
+                    b.ci = opt_alts[alt % 3];
+                }
+                if mask & 4 != 0 {
+                    b.df = opt_alts[(alt + 1) % 3];
+                }
+                if mask & 8 != 0 {
+                    b.di = opt_alts[(alt + 2) % 3];
+                }
+                variants.push((base.clone(), b));
             }
-            if mask & 2 != 0 {
-                b.ci = opt_alts[alt % 2];
-            }
-            if mask & 4 != 0 {
-                b.df = opt_alts[(alt / 2) % 2];
-            }
-            if mask & 8 != 0 {
-                b.di = opt_alts[(alt + mask as usize / 8) % 2];
-            }
-            variants.push((base.clone(), b));
         }
     }
+    let base = bases[0].clone();
     // a module without a code file and one whose code file is the empty string: the SAME module for the code
     variants.push((ModSpec { cf: Cf::Absent, ..base.clone() }, ModSpec { cf: Cf::Empty, ..base.clone() }));
     variants.push((ModSpec { cf: Cf::Empty, ci: None, df: None, di: None }, ModSpec { cf: Cf::Absent, ci: None, df: None, di: None }));
     variants.push((ModSpec { cf: Cf::Absent, ci: None, df: None, di: None }, ModSpec { cf: Cf::Absent, ci: None, df: Some(0), di: None }));
     for (vi, (a, b)) in variants.iter().enumerate() {
         for provs in ["U", "uu"] {
-            for (si, sched) in [vec![], vec![0, 1, 0, 1, 0, 1, 1, 0], vec![1, 1, 0, 0, 1, 0], vec![0, 0, 0, 1, 1, 1, 0, 1]].iter().enumerate() {
+            for (si, sched) in [vec![], vec![0, 1, 0, 1, 0, 1, 1, 0], vec![1, 1, 0, 0, 1, 0]].iter().enumerate() {
                 let mut c = RCase {
                     mode: if si == 0 { 'j' } else { 'a' },
                     provs: provs.to_string(),
@@ -2557,9 +2662,9 @@ fn gen_req(tier: Tier, rng: &mut Rng, emit: &mut dyn FnMut(String)) {
                 let mut b = mods[rng.below(m as u64) as usize].clone();
                 match rng.below(4) {
                     0 => b.cf = rng.pick(&[Cf::Path(0, 7), Cf::Path(3, m as u64), Cf::Empty, Cf::Absent]).clone(),
-                    1 => b.ci = *rng.pick(&[Some(9), None]),
-                    2 => b.df = *rng.pick(&[Some(9), None]),
-                    _ => b.di = *rng.pick(&[Some(9), None]),
+                    1 => b.ci = *rng.pick(&[Some(9), None, Some(EMPTY)]),
+                    2 => b.df = *rng.pick(&[Some(9), None, Some(EMPTY)]),
+                    _ => b.di = *rng.pick(&[Some(9), None, Some(EMPTY)]),
                 }
                 b
             } else {
@@ -2850,6 +2955,9 @@ impl Engine for Once {
     fn shrink(&self, case: &str, still_fails: &dyn Fn(&str) -> bool) -> String {
         if case.starts_with("once req ") {
             return rshrink(case, still_fails);
+        }
+        if case.starts_with("once http ") {
+            return hshrink(case, still_fails);
         }
         let Some(mut c) = parse_case(case) else { return case.to_string() };
         let mut progress = true;
